@@ -316,6 +316,18 @@ func runC07(c *ctx) error {
 	for i := 0; i < n; i++ {
 		g := &c07Gen{r: rng}
 		src := g.document()
+		if i%250 == 3 {
+			// a document rejected while its keys are being collected (ordinary keys, then a null / non-scalar key),
+			// decoded and discarded; whatever that left behind must not leak into the next document
+			var rej yaml.Node
+			bad := core.Pick(rng, []string{"timeout: 5\nretries: 2\nqueue: q\n~: oops\n", "a: 1\nb: 2\nk1: 3\n? [x, y]\n: v\n", "name: n\nx: 1\ny: 2\nc: 3\n? {m: 1}\n: v\n"})
+			if yaml.Unmarshal([]byte(bad), &rej) == nil {
+				decodeWithTimeout(&rej, 20*time.Second)
+			}
+			src = "defaults: &d {timeout: 10, retries: 3, a: A, b: B, name: N, x: X}\n<<: *d\nqueue: q\n"
+			g = &c07Gen{r: rng}
+			c.res.Hist("doc.after-a-rejected-document")
+		}
 		if i%500 == 7 {
 			// stacked diamonds: every layer merges both mappings of the layer below, so the number of merge paths
 			// doubles per layer while the result stays linear in size; decoding must stay fast
